@@ -869,6 +869,41 @@ func execTool(c ToolCase) (vh.Outcome, error) {
 		return out, vh.Errf("%s crashed on tool output %q (exit %d): %v", c.Mode, output, c.Exit, perr)
 	}
 	args, _ := os.ReadFile(filepath.Join(dir, "args"))
+	// the same call through a client connected to this server: a failure must arrive as an error there too
+	{
+		c1, c2, serr := vh.SocketPair()
+		if serr == nil {
+			go func() {
+				_ = vh.Catch(func() { _ = yubiagent.ServeAgent(srv, c2) })
+				c2.Close()
+			}()
+			cl, cerr := yubiagent.NewClientFromConn(c1)
+			if cerr == nil {
+				var viaErr error
+				var viaSlots []string
+				var viaCert *x509.Certificate
+				vperr := vh.Catch(func() {
+					switch c.Mode {
+					case "listslots":
+						viaSlots, viaErr = cl.ListSlots()
+					case "readslot":
+						viaCert, viaErr = cl.ReadSlot(c.Slot)
+					case "attestslot":
+						viaCert, viaErr = cl.AttestSlot(c.Slot)
+					}
+				})
+				c1.Close()
+				if vperr != nil {
+					return out, vh.Errf("%s through a client crashed: %v", c.Mode, vperr)
+				}
+				if (opErr != nil) != (viaErr != nil) {
+					return out, vh.Errf("%s on the server itself returned error %v, the same call through a connected client returned error %v (slots %q, certificate %v): a failure must be reported as an error on both sides (tool exit status %d, remote %v)", c.Mode, opErr, viaErr, viaSlots, viaCert != nil, c.Exit, c.Remote)
+				}
+			} else {
+				c1.Close()
+			}
+		}
+	}
 	if c.Remote {
 		out.NonTrivial = true
 		if opErr == nil {
@@ -917,7 +952,7 @@ func execTool(c ToolCase) (vh.Outcome, error) {
 	return out, nil
 }
 
-const ruleTool = "the real NewServer(remote=false) with a fake yubico-piv-tool on PATH whose stdout and exit status come from the Case: status output of 0..8 lines (well-formed 'Slot xx:' lines, other status lines, 'Slot' lines of length 4..6, 'Slot' not followed by a space, non-ASCII, arbitrary bytes), exit status 0 / 1 / 2 / 127; read / attest with slot names (passed verbatim as arguments) and outputs {PEM certificate up to ~8 KiB, with trailing whitespace, two blocks, empty, garbage}; and remote=true. Oracle: in order, bytes 5..7 of every line starting with 'Slot ' and at least 7 bytes long; lines not starting with 'Slot' contribute nothing; shorter or space-less 'Slot' lines must not crash and may contribute or not; non-zero exit => error; read / attest return the certificate byte-identically; remote mode => error for all three without running the tool. Non-trivial: remote mode, non-zero exit, at least one expected slot, or a certificate result."
+const ruleTool = "the real NewServer(remote=false) with a fake yubico-piv-tool on PATH whose stdout and exit status come from the Case: status output of 0..8 lines (well-formed 'Slot xx:' lines, other status lines, 'Slot' lines of length 4..6, 'Slot' not followed by a space, non-ASCII, arbitrary bytes), exit status 0 / 1 / 2 / 127; read / attest with slot names (passed verbatim as arguments) and outputs {PEM certificate up to ~8 KiB, with trailing whitespace, two blocks, empty, garbage}; and remote=true. Oracle: in order, bytes 5..7 of every line starting with 'Slot ' and at least 7 bytes long; lines not starting with 'Slot' contribute nothing; shorter or space-less 'Slot' lines must not crash and may contribute or not; non-zero exit => error; read / attest return the certificate byte-identically; remote mode => error for all three without running the tool; every call is repeated through a client connected to the server and must fail / succeed there exactly as on the server itself. Non-trivial: remote mode, non-zero exit, at least one expected slot, or a certificate result."
 
 func TestC13Tool(t *testing.T) {
 	vh.Run(t, vh.Spec[ToolCase]{Property: "C13", Name: "TestC13Tool", Rule: ruleTool, Gen: genTool, Exec: execTool})
